@@ -11,7 +11,7 @@ ID = "C14"
 SUB = "c14"
 LEVEL = "proof"
 RESILIENT = True
-MODELLED = ["time", "aead", "vcommit", "write", "account", "file", "record", "cproof", "cstate", "comparison", "tagset"]
+MODELLED = ["time", "aead", "vcommit", "write", "account", "file", "record", "cproof", "cstate", "comparison", "tagset", "evfile"]
 RULE = ("structure-aware Rust generators (every variant, empty/boundary sizes, non-ASCII strings, boundary "
         "timestamps) produce values of each type; a case is the encoding of one value; non-trivial = modelled type "
         "and encoding longer than 2 bytes; distinct by (type, bytes)")
@@ -75,6 +75,11 @@ def oracle(case, obs):
         fails.append({"oracle": "no_result", "type": ty, "detail": "no observation"})
         return fails
     r = res[0]
+    if ty == "evfile":
+        # B is a folder event log file; the observation is the row iterator in both directions (compared with the model)
+        if " fwd=err" in r or " rev=err" in r or "hang" in r:
+            fails.append({"oracle": "valid_file_unreadable", "type": ty, "detail": "a file written by the event log itself reads back as %s" % r[:120]})
+        return fails
     if ty == "tagset":
         # B is the set of tags in a generated order, the observation the tag field of the real encoding: compared
         # with the model's canonical encoding by the correspondence; rt says it does not depend on the insertion order
